@@ -25,8 +25,9 @@
     * labels that READ state other goroutines write float inside their window: the done-checks
       (recvCheck, sendCheck, closeCheck), recvCtx, headerWait, trailerGet, the finishing block's
       decision about the reset (finRst / finUnregister from fin1), and the two labels whose carrier
-      event precedes the effect: callerCancel (between `cancel` and `cancelled`) and sendTeardown
-      (its cancel() comes after the `mux.unregister` event of the failing SendMsg).
+      event brackets the effect: callerCancel (between `cancel` and `cancelled`) and sendTeardown
+      (between `cs.send.fail` and `cs.send.ret fail`: its cancel() comes before — since repair 24 — or
+      after the `mux.unregister` event of the failing SendMsg; the model's label is both at once).
 
   The search is a depth-first search over (position in the log, model state, per-goroutine progress)
   with memoisation (the guards of `step` read only control fields, and every result a label produces
@@ -108,7 +109,7 @@ inductive RPc where
 inductive SPc where
   | idle
   | sCalled (b : Option Bytes) | sDoneRes (t : Option Term) | sNotDone (b : Option Bytes) | sChecked (b : Option Bytes)
-  | sWrote | sFailed | sUnreg | sTorn
+  | sWrote | sFailed | sUnreg | sTorn | sTornEarly
   | sLibOk | sLibFail | sLibDone (e : E)
   | cCalled | cDoneRes | cNotDone | cChecked | cWrote | cLibDone
   deriving DecidableEq, Repr
@@ -169,6 +170,7 @@ def spcCode : SPc → Nat
   | .idle => 0 | .sCalled _ => 1 | .sDoneRes _ => 2 | .sNotDone _ => 3 | .sChecked _ => 4 | .sWrote => 5
   | .sFailed => 6 | .sUnreg => 7 | .sTorn => 8 | .sLibOk => 9 | .sLibFail => 10 | .sLibDone _ => 11
   | .cCalled => 12 | .cDoneRes => 13 | .cNotDone => 14 | .cChecked => 15 | .cWrote => 16 | .cLibDone => 17
+  | .sTornEarly => 18
 
 /-- Everything the future of the search depends on, given the position in the log: the control
     fields of the model state (the histories are write-only for `step`, and every entry appended to
@@ -259,6 +261,10 @@ def fires (q : List Ev) (n : Node) : List (Nat × Node) :=
       | _, _ => []
     | .sUnreg =>
       (step cfg s .sendTeardown).toList.map (fun s' => (2, { s := s', pc := { p with sn := .sTorn } }))
+    | .sFailed =>
+      -- cs.teardown(false) cancels the stream context BEFORE it unregisters the call (repair 24): the
+      -- label's effect may precede the sender's `mux.unregister` event
+      (step cfg s .sendTeardown).toList.map (fun s' => (2, { s := s', pc := { p with sn := .sTornEarly } }))
     | .cCalled =>
       match step cfg s .closeCheck, nextOf 2 q with
       | some s', some .cchk =>
@@ -331,7 +337,8 @@ def consume (wfail : Bool) (q' : List Ev) (n : Node) : Ev → List Node
       else if n.s.rl = .fin2 ∧ (wfail ∨ n.pc.wrSeen) then one (step cfg n.s .finUnregister) n.pc
       else []
     let bySender : List Node :=
-      if n.pc.sn = .sFailed then [{ n with pc := { n.pc with sn := .sUnreg } }] else []
+      if n.pc.sn = .sFailed then [{ n with pc := { n.pc with sn := .sUnreg } }]
+      else if n.pc.sn = .sTornEarly then [{ n with pc := { n.pc with sn := .sTorn } }] else []
     byRl ++ bySender
   | .teardown rst =>
     if n.pc.unregDue ∨ n.s.rstSent ≠ rst then [] else one (step cfg n.s .finCancel) n.pc
